@@ -1,5 +1,6 @@
 import WellenModel.Proofs.Fst
 import WellenModel.Proofs.Canon
+import WellenModel.Proofs.FstRefine
 /-!
 # C10 — FST files load faithfully (wellen's share: what is done with the reader's callbacks)
 
@@ -11,7 +12,11 @@ modelled; it is exercised by corpus files only.
 * `C10_expand_is_rewrite`: widening (2→4→9 states) turns every collected entry into exactly the entry
   that would have been written under the wider kind: the stored data does not depend on the order
   in which 2-, 4- and 9-state values first appear;
-* `C10_no_repeat`: the writer never keeps two equal consecutive entries.
+* `C10_writer_refines_canon` (`Proofs/FstRefine.lean`): for EVERY sequence of callbacks of a bit-vector signal the writer ends
+  with exactly the changes `canon` keeps (immediate repetitions dropped, nothing else), each stored as the loader's entry of
+  its symbols under the widest kind that occurred — the stored data does not depend on the order in which 2-, 4- and 9-state
+  values first appear, nor on how the callbacks are distributed over blocks (only their sequence matters);
+* `C10_expand_for_every_value`: `expand_entries` is the identity on meaning for every value (no bound on the first byte).
 -/
 namespace Wellen.Fst
 open Wellen.Bits Wellen.Store
@@ -69,5 +74,30 @@ theorem C10_cursor_first (tt : List Nat) (t fuel idx : Nat) (hf : tt.length < id
 
 /-- non-vacuity: the table `0,10,10,20` (time 10 repeated at a block boundary) -/
 example : cursorAdvance [0, 10, 10, 20] 1 10 5 = some 1 ∧ cursorAdvance [0, 10, 10, 20] 1 20 5 = some 3 := by decide
+
+/-- **`expand_entries` never alters a value**: the entry of any symbols `nums` (width ≥ 2) written under the maximum `frm`,
+once widened to `to`, is byte for byte the entry written under `to` -/
+theorem C10_expand_for_every_value (frm to loc : States) (bits : Nat) (nums : List Nat)
+    (hlen : nums.length = bits) (hv : ∀ v ∈ nums, v < 2 ^ loc.bits)
+    (hle1 : loc.toNat ≤ frm.toNat) (hle2 : frm.toNat ≤ to.toNat) (hb : 2 ≤ bits) :
+    expandEntry frm to bits (alignEntry frm loc bits (writeNState loc nums none)) =
+      alignEntry to loc bits (writeNState loc nums none) :=
+  expandEntry_align_gen frm to loc bits nums hlen hv hle1 hle2 hb
+
+/-- **the FST writer refines the canonical change list** — for every sequence of callbacks `(time index, value characters)` of
+a bit-vector signal of width ≥ 2 (every order of 2-, 4- and 9-state values, any repetitions): `SignalWriter::add_change` with
+widening, entry layout and byte-wise de-duplication ends with exactly the changes the specification's `canon` keeps, each
+stored as the loader's entry (`valueEntry`) of its symbols under the widest kind that occurred -/
+theorem C10_writer_refines_canon (bits : Nat) (hb : 2 ≤ bits) (cbs : List (Nat × List Nat))
+    (hv : ∀ cb ∈ cbs, ∃ nums, charsToNums cb.2 = some nums ∧ nums.length = bits) :
+    ∃ (sigS : States) (chg : List (Nat × List Nat)), runWriter (.bitvec bits) (cbs.map fun c => (c.1, WValue.chars c.2)) =
+        some { maxStates := sigS, times := chg.map (·.1), entries := chg.map (fun x => valueEntry sigS bits x.2) } ∧
+      (chg.map fun x => (x.1, Spec.Value.bits x.2)) = Spec.canon (cbs.map fun c => (c.1, Spec.Value.bits (symsOf c.2))) ∧
+      (∀ cb ∈ cbs, (Spec.kindOf (symsOf cb.2)).toNat ≤ sigS.toNat) :=
+  writer_refines_canon bits hb cbs hv
+
+/-- non-vacuity: `01`, `0x` (widening to four states), `0x` again (dropped), `h1` (widening to nine states) -/
+example : ∃ l, runWriter (.bitvec 2) [(0, .chars [48, 49]), (1, .chars [48, 120]), (2, .chars [48, 120]), (2, .chars [104, 49])] = some l ∧
+    l.times = [0, 1, 2] ∧ l.maxStates = .nine := ⟨_, rfl, rfl, rfl⟩
 
 end Wellen.Fst
